@@ -176,12 +176,104 @@ def case(chk, i):
     return out
 
 
+XTARGETS = ["x86_64-apple-darwin", "i686-pc-windows-msvc", "x86_64-pc-windows-msvc", "i686-unknown-linux-gnu", "aarch64-apple-darwin",
+            "x86_64-unknown-linux-gnu"]
+SZ32 = {"char": 1, "short": 2, "int": 4, "long long": 8, "double": 8, "float": 4, "void *": 4, "unsigned char": 1}
+
+
+def cross_case(chk, i):
+    """symbol names on non-host targets: text only (clang --target -c + llvm-nm vs an 8-line model of platform mangling)"""
+    rng = chk.rng("cross", i)
+    d = chk.dir("x%d" % (i % 32))
+    decls = []      # (c_name, kind, text_decl, text_def, cc, argbytes32)
+    names = ["plain", "type", "fn", "match", "a$b", "ok_name", "self", "x1", "mod"]
+    rng.shuffle(names)
+    for k in range(rng.randint(3, 8)):
+        n = names[k] + ("_%d" % k if names[k] in ("plain", "ok_name", "x1") else "")
+        if rng.random() < 0.25:
+            label = rng.choice(["real_%d" % k, "_lead_%d" % k, "with$d_%d" % k])
+            if rng.random() < 0.5:
+                decls.append((n, "var", 'extern int %s __asm__("%s");' % (n, label), 'int %s __asm__("%s") = 1;' % (n, label), "C", 0))
+            else:
+                decls.append((n, "fn", 'int %s(int) __asm__("%s");' % (n, label), 'int %s(int) __asm__("%s"); int %s(int a) { return a; }' % (n, label, n), "C", 4))
+        elif rng.random() < 0.2:
+            decls.append((n, "var", "extern long long %s;" % n, "long long %s = 2;" % n, "C", 0))
+        else:
+            cc = rng.choice(["C", "C", "stdcall", "fastcall"])
+            ps = [rng.choice(list(SZ32)) for _ in range(rng.randint(0, 4))]
+            at = "" if cc == "C" else "__attribute__((%s)) " % cc
+            sig = ", ".join("%s p%d" % (t, j) for j, t in enumerate(ps)) or "void"
+            ab = sum((SZ32[t] + 3) // 4 * 4 for t in ps)
+            decls.append((n, "fn", "int %s%s(%s);" % (at, n, sig), "int %s%s(%s) { return 0; }" % (at, n, sig), cc, ab))
+    hdr = write(os.path.join(d, "x%d.h" % i), "\n".join(x[2] for x in decls) + "\n")
+    out = []
+    for t in rng.sample(XTARGETS, chk.pick(2, 6)):
+        cname = "cross-%d-%s" % (i, t)
+        b = os.path.join(d, "xb.rs")
+        rc, so, se, _ = sh([build.BINDGEN, hdr, "--no-layout-tests", "-o", b, "--", "--target=" + t, "-ffreestanding"], timeout=60, cpu=60)
+        if rc != 0:
+            out.append(Verdict(INCONCLUSIVE, cname, "bindgen failed: " + se[-200:]))
+            continue
+        inv = inventory(b)
+        bound = {}
+        for it in inv["items"]:
+            if it["kind"] == "extern_block":
+                for m in it["members"]:
+                    bound[m["name"]] = (it["abi"], m.get("link_name"), m["kind"])
+        problems, nsym = [], 0
+        for (n, kind, decl, defn, cc, ab) in decls:
+            src = write(os.path.join(d, "one.c"), defn + "\n")
+            rc, so, se, _ = sh(["clang", "--target=" + t, "-ffreestanding", "-w", "-c", src, "-o", os.path.join(d, "one.o")], timeout=60)
+            if rc != 0:
+                continue
+            rc, nm, se, _ = sh(["llvm-nm", "-g", "--defined-only", os.path.join(d, "one.o")], timeout=30)
+            syms = [l.split()[-1] for l in nm.splitlines() if l.strip()]
+            if len(syms) != 1:
+                continue
+            true_sym = syms[0]
+            # the binding: Rust name is the C name, mangled with a trailing underscore when it is a keyword / contains '$'
+            cands = [n, n + "_", n.replace("$", "_") + "_"]
+            bn = [c for c in cands if c in bound]
+            if not bn:
+                problems.append("%s `%s` got no binding for target %s" % (kind, n, t))
+                continue
+            abi, link, k2 = bound[bn[0]]
+            nsym += 1
+            eff_cc = cc if t.startswith("i686") else "C"
+            want_abi = {"C": "C", "stdcall": "stdcall", "fastcall": "fastcall"}[eff_cc] if kind == "fn" else abi
+            if kind == "fn" and abi != want_abi:
+                problems.append("function %s: calling convention %s declared as extern \"%s\" for %s" % (n, eff_cc, abi, t))
+            base = link if link is not None else bn[0]
+            if base.startswith("\x01"):
+                pred = base[1:]
+            else:
+                macho = "apple" in t
+                win32 = t.startswith("i686") and "windows" in t
+                if kind == "fn" and win32 and abi == "stdcall":
+                    pred = "_%s@%d" % (base, ab)
+                elif kind == "fn" and win32 and abi == "fastcall":
+                    pred = "@%s@%d" % (base, ab)
+                elif macho or win32:
+                    pred = "_" + base
+                else:
+                    pred = base
+            if pred != true_sym:
+                problems.append("%s `%s` for %s: the binding (abi %s, link_name %r) resolves to symbol `%s`, clang emits `%s`" % (kind, n, t, abi, link, pred, true_sym))
+        obs = {"cross_target_runs": 1, "cross_symbols_checked": nsym, "xtarget." + t: 1}
+        if problems:
+            out.append(Verdict(VIOLATED, cname, "\n".join(problems[:8]), files={"x.h": open(hdr).read(), "bindings.rs": open(b).read()}, obs=obs))
+        else:
+            out.append(Verdict(HELD, cname, obs=obs, nontrivial=nsym >= 2, key=cname))
+    return out
+
+
 def asm_sig(lib, syms):
     return None
 
 
 def run(chk):
     chk.map(lambda i: case(chk, i), range(chk.pick(40, 400)), budget_s=chk.pick(500, 3000))
+    chk.map(lambda i: cross_case(chk, i), range(chk.pick(30, 300)), budget_s=chk.pick(200, 900))
     return chk.finish(
         rule="case = (generated C library, option set): functions over every scalar kind, _Bool, char signedness, enums, typedefs, pointers with "
              "const and non-const pointees, array parameters, by-value structs/unions shaped to straddle the SysV classes (all-int, all-float, "
@@ -190,5 +282,7 @@ def run(chk):
              "value is fixed by the orchestrator, the C callee prints what arrived, the Rust side prints returns, globals are read and written "
              "on both sides; declared parameter/return kinds, signedness and widths are recovered from the bindings through trait inference "
              "on the function item and compared with C's; non-trivial = at least one call went through.",
-        assumptions=["x86_64 SysV host ABI only; cross-target symbol naming is not executed",
+        assumptions=["calls are executed on the x86_64 SysV host only; for apple-darwin / windows-msvc (cdecl, stdcall, fastcall) / i686 targets the "
+                     "symbol each binding resolves to is predicted from (abi, link_name, name) with a small model of LLVM's platform mangling "
+                     "and compared with `clang --target -c` + llvm-nm, per declaration",
                      "noreturn functions and C++ methods are not called in this tier"])
